@@ -47,5 +47,16 @@ RelabelProgs == { <<CbAlg(a)>> : a \in {"HS256", "HS512", "HS384", "none", "RS25
 RelabelToks == { Tok(a, <<>>, <<IntM("exp", FutW)>>, Sig("valid", a, KOct2)) : a \in {"HS256", "HS512", "HS384"} }
 RelabelScripts ==
   { <<LoadOp(<<KOct, KOct2>>), CNewOp, CSetKeyOp("none", 1), CSetCbOp(p), VerifyOpX(t, 0, 1)>> : p \in RelabelProgs, t \in RelabelToks }
-MCSpec == ISpecP(InFam(C19Fam) \/ script \in RelabelScripts)
+\* two verifications on one checker: in the first the callback selects a key, in the second it (or its successor,
+\* or nothing after setcb(NULL, NULL)) returns 0 and leaves the configuration alone - the second verdict is the one
+\* the checker's own configuration gives, the first call's selection was for that call
+SelProgs == { <<CbKey(1)>>, <<CbKey(1), CbAlg("HS512")>>, <<CbKey(1), CbAlg("none")>> }
+AfterProgs == { <<>>, <<CbRet(0)>>, <<StepSet("clm", Val("str", "iss", "me", 1))>>, <<StepDel("hdr", NONE)>> }
+TK1 == Tok("HS256", <<>>, <<IntM("exp", FutW)>>, Sig("valid", "HS256", KOct))
+TK2 == Tok("HS512", <<>>, <<IntM("exp", FutW)>>, Sig("valid", "HS512", KOct2))
+SeqScripts ==
+  { <<LoadOp(<<KOct, KOct2>>), CNewOp>> \o su \o <<CSetCbOp(sel), VerifyOpX(TK2, 0, 1), after, VerifyOpX(t, 0, 1)>> :
+      su \in { <<>>, <<CSetKeyOp("HS256", 0)>> }, sel \in SelProgs,
+      after \in { CSetCbOp(p) : p \in AfterProgs } \cup { CSetCbOff }, t \in {TK1, TK2} }
+MCSpec == ISpecP(InFam(C19Fam) \/ script \in RelabelScripts \/ script \in SeqScripts)
 =============================================================================
